@@ -438,6 +438,9 @@ func (h *lcH) finish(finalStop bool) string {
 		if h.stray[e.Gid] {
 			continue
 		}
+		if hang == 1 && n >= 4000 {
+			break // (a hang with a runaway goroutine: the head of the trace is evidence enough)
+		}
 		n++
 		fmt.Fprintf(&tb, " %s:%s", h.roleOf(e.Gid, e.Site), e.Site)
 	}
@@ -462,6 +465,10 @@ func c10Gen(r *Rng, tier string, idx int) (string, func() string) {
 		return "src udp opens 1 sched udpFail", func() string { return lcUDPFail(idx, false) }
 	case idx == 1:
 		return "src udp opens 1 sched udpBusy", func() string { return lcUDPFail(idx, true) }
+	case idx == 20 || idx == 110 || (tier == "thorough" && idx%131 == 13):
+		k := 1 + idx%3
+		hold := b2i(idx%2 == 0)
+		return fmt.Sprintf("src tri opens 0 sched fastTri k %d hold %d", k, hold), func() string { return lcFastTri(idx, k, hold == 1) }
 	case idx == 170 || (tier == "thorough" && idx%149 == 11):
 		variant := idx % 2
 		return fmt.Sprintf("src abaco opens 1 sched udpBad variant %d", variant), func() string { return lcUDPBad(idx, variant) }
@@ -887,6 +894,57 @@ func (h *lcH) writingLeft() (active, writers int) {
 		writers = o.VerifWritersInstalled()
 	}
 	return
+}
+
+// lcFastTri: a real TriangleSource that cannot keep up with its own schedule (2 samples per buffer at 10 MHz, 8
+// channels: every buffer is due before the previous one is processed).  A few blocks, optionally the loop held at
+// `loop.processed` for a few ms (many buffer periods), then k concurrent Stops: they must return, the source must
+// end Inactive with its goroutines gone, and it must be startable again.
+func lcFastTri(idx, k int, hold bool) string {
+	h := lcNew("tri", idx)
+	ts := dastard.NewTriangleSource()
+	if err := ts.Configure(&dastard.TriangleSourceConfig{Nchan: 8, SampleRate: 1e7, Min: 0, Max: 1}); err != nil {
+		panic(err)
+	}
+	h.ds = ts
+	h.sc = dastard.VerifNewSourceControl(ts, 8, 32)
+	h.sc.VerifSetActive(false)
+	dastard.VerifPointsOn()
+	for round := 0; round < 2; round++ {
+		s := h.spawnStart()
+		if !s.wait(3*time.Second) || s.ret != 0 {
+			break
+		}
+		h.flagOn()
+		base := lcCount(dastard.VerifTrace(0), "loop.processed")
+		lcWaitTrace(time.Second, func(tr []dastard.VerifEvent) bool { return lcCount(tr, "loop.processed") >= base+5 })
+		if hold && round == 0 {
+			dastard.VerifGate("loop.processed")
+			lcWaitTrace(time.Second, func([]dastard.VerifEvent) bool { return len(dastard.VerifParked()) > 0 })
+			time.Sleep(3 * time.Millisecond) // thousands of buffer periods: the producer is far behind
+		}
+		var ks []*lcCall
+		for i := 0; i < k; i++ {
+			ks = append(ks, h.spawnStopNoSettle())
+		}
+		if hold && round == 0 {
+			h.openGates()
+		}
+		back := true
+		for _, c := range ks {
+			if !c.wait(3 * time.Second) {
+				back = false
+			}
+		}
+		if !back {
+			dastard.VerifPointsOff() // a runaway producer would fill the trace; what is logged so far is the evidence
+			break
+		}
+		h.sc.VerifRefresh()
+		dastard.VerifNote("flag.refresh")
+		lcSettle()
+	}
+	return h.finish(true)
 }
 
 // lcSelfW: the scripted source ends by itself (error block) while writing is active — or active and PAUSED —; then
